@@ -133,7 +133,7 @@ STRENGTHENED = {
  'C12-L': 'missed at first for a structural reason: the change moves the parenthesised twin onto the fast path, and the check used to declare such a case inconclusive ("twin not on the general path") and skip it; it now keeps judging both decisions against the reference (literals with parentheses and row values derived by careless normalisation were added too)',
  'C11-K': 'missed at first: the direct family now also writes a HAVING without GROUP BY (only its reflection in the configuration is judged)',
  'C15-K': 'missed at first: a third of the WITHIN cases run on a 500 ns grid with WITHIN written as a fractional number of microseconds (`1.5 US`)',
- 'C15-L': 'NOT caught: needs a wall-clock pause inside a match with a short WITHIN over sequence-number timestamps (the check avoids wall-clock dependence)',
+ 'C15-L': 'missed at first: added the stream `c15pause` (sequence-number ORDER BY values, WITHIN \'200ms\', a producer that pauses 450 ms inside a match; the verdict is the content delivered, not a time)',
  'C05-K': 'NOT caught: needs uint64 values near 2^64 (the unchanged engine already mis-decides those against integer literals, so the class is left out)',
 }
 rows = []
